@@ -146,6 +146,11 @@ func prune(f *frame, kill bool) *frame {
 
 func hasKnownRootDefect(f *frame, static bool) bool {
 	for _, a := range f.acts {
+		if a.kind == 'N' && a.two {
+			// not a defect: a CREATE2 address depends on the init code bytes, which pruning a nested body changes
+			// (gas operands are embedded in the code), so the two variants would create different accounts
+			return true
+		}
 		if a.kind == 'A' || a.kind == 'K' || a.kind == 'U' || a.kind == 'V' {
 			if static {
 				return true // AUTHCALL / STAKE family below a STATICCALL (recorded)
